@@ -162,6 +162,15 @@ def remapNamesHolds (jar : Jar) (ns : Nests) : Option Bool :=
         | .ok out => some (out.map nameView == want)
         | .error _ => some false
 
+/-- `oracle-read-spec`: `read_spec` evaluated on one text -/
+def readSpecHolds (text : List Nat) : Option Bool :=
+  match Nest.read text with
+  | none => none
+  | some ns =>
+    some (keysUnique ns && ns.all (fun n => n.kind == kindOfInnerName n.innerName && !n.className.isEmpty &&
+      !n.enclClass.isEmpty && !n.innerName.isEmpty && validObjClassName n.className && validObjClassName n.enclClass &&
+      validObjClassName n.innerName))
+
 def verdict : Option Bool → Ans
   | none => .ok (tag "out-of-domain")
   | some true => .ok (tag "pass")
@@ -217,6 +226,9 @@ def handleC14 (op : String) (args : List Sexp) : Option Ans :=
   | "oracle-remap-names", [ns, jar] => do
     let ns ← nestsFrom ns; let jar ← jarFrom jar
     pure (verdict (remapNamesHolds jar ns))
+  | "oracle-read-spec", [t] => do
+    let t ← toJStr? t
+    pure (verdict (readSpecHolds t))
   | "oracle-apply-spec", [m, ns] => do
     let ns ← nestsFrom ns; let m ← mappingsFrom m
     pure (verdict (applySpecHolds m ns))
